@@ -171,14 +171,15 @@ def check_rotation_resets(run, rule):
         run.ob(rule, "write_block:header-state", None, wbb, wbb["line"], "the condition under which the file header is written reads no exporter member")
     rots = [f for f in facts.fns(EXP + "::rotate_output")]
     for ro in rots:
+        from .C02 import reset_at_exit, member_writes
         assigned = set()
-        envr = Env(ro["body"])
-        for st, g, loops in ir.guarded_statements(ro["body"], envr):
-            if st.get("k") in ("IfCond", "LoopHead", "SwitchHead"):
-                continue
-            for lp, rhs, node in consumption.assignment_targets([st]):
-                if lp and lp[0] == "this" and len(lp) == 2 and g == ("T",):
-                    assigned.add(lp[1])
+        for m in sorted(reads):
+            ws = member_writes(ro, m)
+            # re-initialised: a constant is stored on every normal path (for counters: 0, possibly only when non-zero)
+            if reset_at_exit(ro, m, facts)[0]:
+                assigned.add(m)
+            elif ws and all(w[3] == ("T",) and w[1] == "=" for w in ws):
+                assigned.add(m)
         for m in sorted(reads):
             ok = m in assigned
             run.ob(rule, "rotate_output%s:resets-%s" % (ro.get("targs", ""), m), ok, ro, ro["line"],
